@@ -23,6 +23,10 @@ def impl_hk(nu, nv, edges):
         g = BipartiteGraph(nu, nv, edges)
         hk = HopcroftKarp(g)
         m = hk()
+        if (nu + nv + len(edges)) % 2 == 1:
+            # repeated call on the same solver object: `__call__` resets its internal data, so the result (and the final
+            # internal state) must be that of a fresh run, which is what the model computes
+            m = hk()
         return {'matching': [[int(u), int(v)] for u, v in m],
                 'mu': [int(x) for x in hk.matched_pairs_u], 'mv': [int(x) for x in hk.matched_pairs_v],
                 'du': [int(hk.dist[u]) for u in range(nu)], 'dnil': int(hk.dist[-1])}
@@ -171,7 +175,11 @@ def oracle(nu, nv, edges):
     eset = {(u, v) for u, v in edges}
     try:
         g = BipartiteGraph(nu, nv, [tuple(e) for e in edges])
-        m = with_alarm(5.0, lambda: HopcroftKarp(g)())
+        hk_ = HopcroftKarp(g)
+        m = with_alarm(5.0, lambda: hk_())
+        m_again = with_alarm(5.0, lambda: hk_())
+        if len(m_again) != len(m):
+            return f'second call on the same HopcroftKarp object returns a matching of size {len(m_again)}, the first call {len(m)}'
         uc, vc = with_alarm(5.0, lambda: minimum_vertex_cover(g))
     except CaseTimeout:
         return 'does not terminate within 5 s'
